@@ -68,18 +68,21 @@ Section Oracles.
   Proof. exact (nest_transparent simple astr mredir cdres injrisk rulematch). Qed.
 
   (* if / while / until *)
-  Theorem C03_if : forall c cond thn els,
+  Theorem C03_if : forall c cond thn els, changes_directory cond = false ->
     walk c (mk_if cond thn els) = combine (walk c cond :: walk c thn :: match els with Some e => [walk c e] | None => [] end).
   Proof. exact (if_join simple astr mredir cdres injrisk rulematch). Qed.
-  Theorem C03_while : forall c cond body, walk c (mk_loop "while" cond body) = combine [walk c cond; walk c body].
+  Theorem C03_while : forall c cond body, changes_directory (mk_loop "while" cond body) = false ->
+    walk c (mk_loop "while" cond body) = combine [walk c cond; walk c body].
   Proof. exact (while_join simple astr mredir cdres injrisk rulematch). Qed.
-  Theorem C03_until : forall c cond body, walk c (mk_loop "until" cond body) = combine [walk c cond; walk c body].
+  Theorem C03_until : forall c cond body, changes_directory (mk_loop "until" cond body) = false ->
+    walk c (mk_loop "until" cond body) = combine [walk c cond; walk c body].
   Proof. exact (until_join simple astr mredir cdres injrisk rulematch). Qed.
 
   (* every compound node kind, whatever other attributes it carries: its verdict is the join of
      its constituents' verdicts and of its own redirects and header words *)
   Theorem C03_for : forall c ss fs ks, let t := T $"for" ss fs ks in
-    walk c t = combine (need simple astr mredir cdres injrisk rulematch c (child "body" t) ::
+    let cb := body_ctx c (match child "body" t with Some x => changes_directory x | None => false end) in
+    walk c t = combine (need simple astr mredir cdres injrisk rulematch cb (child "body" t) ::
                         wparts simple astr mredir cdres injrisk rulematch c (children "words" t) ++
                         redirs_of simple astr mredir cdres injrisk rulematch c t).
   Proof. exact (walk_for simple astr mredir cdres injrisk rulematch). Qed.
